@@ -11,6 +11,7 @@ import (
 	"context"
 	"encoding/json"
 	"fmt"
+	"hash/fnv"
 	"os"
 	"regexp"
 	"sort"
@@ -26,6 +27,31 @@ import (
 )
 
 func init() { register("C06", runC06) }
+
+// fdVars: the variables every query of this world is parsed with (used by the `echo` arguments): lists with null
+// elements can only be sent through variables
+func fdVars() map[string]interface{} {
+	return map[string]interface{}{
+		"vt": []interface{}{"a\"b", nil, "ü\n<&>", ""},
+		"vn": []interface{}{float64(1), nil, float64(3), nil},
+		"vl": nil,
+	}
+}
+
+// fdIn: the input object of A.echo
+type fdIn struct {
+	Tags  []*string `json:"tags"`
+	Nums  []*int64  `json:"nums"`
+	Label *string   `json:"label"`
+}
+
+// fdEchoHash: what A.echo answers: a number that depends on every detail of the argument as it arrived
+func fdEchoHash(id int64, in fdIn) int64 {
+	b, _ := json.Marshal(in)
+	h := fnv.New32a()
+	h.Write(b)
+	return id*1000000 + int64(h.Sum32()%100000)
+}
 
 var fdUnionRe = regexp.MustCompile(`\bus\b`)
 
@@ -81,8 +107,9 @@ type fdField struct {
 
 var fdPool = []fdField{
 	{"Query", "as"}, {"Query", "bs"}, {"Query", "us"}, {"Query", "oneA"}, {"Query", "num"},
-	{"A", "a0"}, {"A", "a1"}, {"A", "a2"}, {"A", "aPlus"}, {"A", "b"}, {"A", "bs"},
+	{"A", "a0"}, {"A", "a1"}, {"A", "a2"}, {"A", "aPlus"}, {"A", "echo"}, {"A", "b"}, {"A", "bs"},
 	{"B", "b0"}, {"B", "b1"}, {"B", "a"}, {"B", "as"},
+	{"Mutation", "pickA"},
 }
 
 type fdPartition struct {
@@ -129,7 +156,7 @@ func fdBuild(name string, st *fdStore, has func(fdField) bool, federated bool, i
 		if !has(f) {
 			continue
 		}
-		if f.Typ == "A" || f.Name == "as" || f.Name == "oneA" || f.Name == "us" || (f.Typ == "B" && (f.Name == "a" || f.Name == "as")) {
+		if f.Typ == "A" || f.Name == "as" || f.Name == "oneA" || f.Name == "us" || f.Name == "pickA" || (f.Typ == "B" && (f.Name == "a" || f.Name == "as")) {
 			needA = true
 		}
 		if f.Typ == "B" || f.Name == "bs" || f.Name == "us" || (f.Typ == "A" && (f.Name == "b" || f.Name == "bs")) {
@@ -231,6 +258,16 @@ func fdBuild(name string, st *fdStore, has func(fdField) bool, federated bool, i
 			oa.FieldFunc(f.Name, func(a *A) int64 { return st.A[a.Id].V[1] + 1000*a.Org })
 		case "A.aPlus":
 			oa.FieldFunc("aPlus", func(a *A, args struct{ N int64 }) int64 { return st.A[a.Id].V[0] + args.N })
+		case "A.echo":
+			oa.FieldFunc("echo", func(a *A, args struct{ In fdIn }) int64 { return fdEchoHash(a.Id, args.In) })
+		case "Mutation.pickA":
+			// a mutation without side effects (the combined server and the gateway both run it): its result has fields on other services
+			sb.Mutation().FieldFunc("pickA", func(args struct{ Id int64 }) *A {
+				if _, ok := st.A[args.Id]; !ok {
+					return nil
+				}
+				return mkA(args.Id)
+			})
 		case "A.b":
 			oa.FieldFunc("b", func(a *A) *B { return mkB(st.A[a.Id].B) })
 		case "A.bs":
@@ -264,6 +301,8 @@ type fdRecordingClient struct {
 	inner  federation.ExecutorClient
 	mu     *sync.Mutex
 	record *[]fdRequest
+	idOnly bool      // the service declares only `id` as the key of A
+	strays *[]string // key fields handed to a service that does not declare them
 }
 
 type fdRequest struct {
@@ -275,6 +314,26 @@ type fdRequest struct {
 func (c *fdRecordingClient) Execute(ctx context.Context, req *federation.QueryRequest) (*federation.QueryResponse, error) {
 	c.mu.Lock()
 	*c.record = append(*c.record, fdRequest{Service: c.name, Query: fdPrint(req.Query.SelectionSet)})
+	// the keys a service is handed only carry the key fields that service declares
+	if req.Query.SelectionSet != nil {
+		for _, s := range req.Query.SelectionSet.Selections {
+			if s.Name != "_federation" || s.SelectionSet == nil {
+				continue
+			}
+			for _, k := range s.SelectionSet.Selections {
+				keys, _ := k.UnparsedArgs["keys"].([]interface{})
+				for _, key := range keys {
+					km, _ := key.(map[string]interface{})
+					for field := range km {
+						declared := field == "id" || (field == "org" && strings.HasSuffix(k.Name, "_A") && !c.idOnly)
+						if !declared && c.strays != nil {
+							*c.strays = append(*c.strays, fmt.Sprintf("%s is handed key field %q in %s", c.name, field, k.Name))
+						}
+					}
+				}
+			}
+		}
+	}
 	c.mu.Unlock()
 	return c.inner.Execute(ctx, req)
 }
@@ -329,6 +388,7 @@ type fdWorld struct {
 	gateway  *federation.Executor
 	mono     *graphql.Schema
 	requests []fdRequest
+	strays   []string
 	mu       sync.Mutex
 	cancel   context.CancelFunc
 }
@@ -350,7 +410,7 @@ func fdSetupRefresh(cs c06Case, refreshSeconds int64) (*fdWorld, error) {
 		if err != nil {
 			return nil, err
 		}
-		execs[name] = &fdRecordingClient{name: name, inner: &federation.DirectExecutorClient{Client: srv}, mu: &w.mu, record: &w.requests}
+		execs[name] = &fdRecordingClient{name: name, inner: &federation.DirectExecutorClient{Client: srv}, mu: &w.mu, record: &w.requests, idOnly: cs.Partition.idOnly(name), strays: &w.strays}
 	}
 	ctx, cancel := context.WithCancel(context.Background())
 	w.cancel = cancel
@@ -374,14 +434,18 @@ func fdSetupRefresh(cs c06Case, refreshSeconds int64) (*fdWorld, error) {
 }
 
 func (w *fdWorld) monolith(query string) (interface{}, error) {
-	q, err := graphql.Parse(query, map[string]interface{}{})
+	q, err := graphql.Parse(query, fdVars())
 	if err != nil {
 		return nil, err
 	}
-	if err := graphql.PrepareQuery(context.Background(), w.mono.Query, q.SelectionSet); err != nil {
+	root := w.mono.Query
+	if q.Kind == "mutation" {
+		root = w.mono.Mutation
+	}
+	if err := graphql.PrepareQuery(context.Background(), root, q.SelectionSet); err != nil {
 		return nil, err
 	}
-	v, err := graphql.NewExecutor(graphql.NewImmediateGoroutineScheduler()).Execute(context.Background(), w.mono.Query, nil, q)
+	v, err := graphql.NewExecutor(graphql.NewImmediateGoroutineScheduler()).Execute(context.Background(), root, nil, q)
 	if err != nil {
 		return nil, err
 	}
@@ -389,12 +453,13 @@ func (w *fdWorld) monolith(query string) (interface{}, error) {
 }
 
 func (w *fdWorld) federated(query string) (res interface{}, reqs []fdRequest, err error) {
-	q, perr := graphql.Parse(query, map[string]interface{}{})
+	q, perr := graphql.Parse(query, fdVars())
 	if perr != nil {
 		return nil, nil, perr
 	}
 	w.mu.Lock()
 	w.requests = nil
+	w.strays = nil
 	w.mu.Unlock()
 	if p := safely(func() { res, _, err = w.gateway.Execute(context.Background(), q, nil) }); p != nil {
 		err = fmt.Errorf("panic: %v", p)
@@ -447,6 +512,16 @@ func c06One(c *Ctx, m *Model, cs c06Case) {
 			}
 			continue
 		}
+		w.mu.Lock()
+		strays := append([]string{}, w.strays...)
+		w.mu.Unlock()
+		if len(strays) > 0 {
+			rep.Fail("impl_ne_spec", nil, one, map[string]interface{}{"what": "a sub-query hands a service a key field the service does not declare (each sub-query only uses what its service exposes)", "query": query, "strays": strays, "requests": reqs})
+			if rep.ShouldStop() {
+				return
+			}
+			continue
+		}
 		if gerr != nil {
 			rep.Fail("impl_ne_spec", c06KF(gerr.Error(), query), one, map[string]interface{}{"what": "the gateway fails on a query the combined server answers", "query": query, "error": firstN(gerr.Error(), 400), "monolith": wantJ, "requests": reqs})
 			if rep.ShouldStop() {
@@ -472,8 +547,11 @@ func c06One(c *Ctx, m *Model, cs c06Case) {
 				continue
 			}
 		}
-		if m != nil && !fdUnionRe.MatchString(query) {
+		if m != nil && !fdUnionRe.MatchString(query) && !strings.HasPrefix(query, "mutation") {
 			c06Model(c, m, w, cs, query, got, wantJ)
+		}
+		if strings.HasPrefix(query, "mutation") {
+			rep.Count("mutation_through_gateway")
 		}
 		if expanded != query {
 			// known finding C06-8: thunder's own executor ignores a fragment whose type condition is the union itself
@@ -620,7 +698,7 @@ func c06Refresh(c *Ctx, r *Rand, d time.Duration) {
 			defer wg.Done()
 			for i := g; time.Now().Before(deadline) && !rep.ShouldStop(); i++ {
 				j := jobs[i%len(jobs)]
-				q, perr := graphql.Parse(j.query, map[string]interface{}{})
+				q, perr := graphql.Parse(j.query, fdVars())
 				if perr != nil {
 					continue
 				}
@@ -695,7 +773,7 @@ func c06GenPartition(r *Rand) fdPartition {
 		var owners []string
 		first := r.Intn(p.Services)
 		owners = append(owners, fmt.Sprintf("s%d", first+1))
-		if f.Typ != "Query" && r.Chance(0.2) {
+		if f.Typ != "Query" && f.Typ != "Mutation" && r.Chance(0.2) {
 			second := (first + 1 + r.Intn(p.Services-1)) % p.Services
 			owners = append(owners, fmt.Sprintf("s%d", second+1))
 			sort.Strings(owners)
@@ -850,7 +928,7 @@ func (g *c06QGen) sels(typ string, depth int, path string) string {
 		var scal, objs []string
 		switch typ {
 		case "A":
-			scal, objs = []string{"id", "a0", "a1", "a2", "aPlus", "__typename"}, []string{"b", "bs"}
+			scal, objs = []string{"id", "a0", "a1", "a2", "aPlus", "echo", "__typename"}, []string{"b", "bs"}
 		case "B":
 			scal, objs = []string{"id", "b0", "b1", "__typename"}, []string{"a", "as"}
 		case "Query":
@@ -864,6 +942,16 @@ func (g *c06QGen) sels(typ string, depth int, path string) string {
 			name = scal[r.Intn(len(scal))]
 			if name == "aPlus" || name == "num" {
 				args = fmt.Sprintf("(n: %d)", r.Intn(3))
+			}
+			if name == "echo" {
+				// an input object with lists: by literal (quotes, unicode, a number above 2^53) and by variables
+				// (null elements, a null field)
+				args = []string{
+					`(in: {tags: ["a\"b", "ü"], nums: [1, 2, 9007199254740993]})`,
+					`(in: {tags: $vt, nums: $vn, label: $vl})`,
+					`(in: {tags: [], nums: $vn, label: "x y"})`,
+					`(in: {nums: [], tags: $vt})`,
+				}[r.Intn(4)]
 			}
 		}
 		if alias == "" {
@@ -1018,6 +1106,13 @@ func c06GenQuery(r *Rand) string {
 		}
 	}
 	q := "query Q { " + g.sels("Query", 1+r.Intn(3), "") + " }"
+	if r.Chance(0.12) {
+		// a mutation whose result has fields on other services
+		q = fmt.Sprintf("mutation M { pickA(id: %d) { %s } }", 1+r.Intn(4), g.body("A", 1+r.Intn(2), "/pickA"))
+	}
+	if strings.Contains(q, "$v") {
+		q = strings.Replace(q, " {", "($vt: [String], $vn: [Int], $vl: String) {", 1)
+	}
 	for _, fr := range g.frags {
 		if fr.used && len(fr.fields) > 0 {
 			q += " fragment " + fr.name + " on " + fr.typ + " { " + c06PrintFragFields(fr.fields) + " }"
